@@ -1,3 +1,6 @@
+Lib/Atomic.vo Lib/Atomic.glob Lib/Atomic.v.beautified Lib/Atomic.required_vo: Lib/Atomic.v Lib/Base.vo
+Lib/Atomic.vio: Lib/Atomic.v Lib/Base.vio
+Lib/Atomic.vos Lib/Atomic.vok Lib/Atomic.required_vos: Lib/Atomic.v Lib/Base.vos
 Lib/Base.vo Lib/Base.glob Lib/Base.v.beautified Lib/Base.required_vo: Lib/Base.v 
 Lib/Base.vio: Lib/Base.v 
 Lib/Base.vos Lib/Base.vok Lib/Base.required_vos: Lib/Base.v 
